@@ -114,3 +114,37 @@ package clientgen
 //@ func (g *Generator) Generate() (err error)
 //@   ensures rules: err == nil ==> (forall k int :: 0 <= k && k < len(g.plugin.Files) && g.plugin.Files[k].Generate ==> spec.FileOK_client(g.plugin.Files[k]))
 //@   loop 1 invariant forall k int :: 0 <= k && k < _i1 && g.plugin.Files[k].Generate ==> spec.FileOK_client(g.plugin.Files[k])
+
+// ---- termination measures of the recursive traversals (C16) ----
+
+//@ func collectBytesEncodingMessages(messages []*protogen.Message, contexts *[]*BytesEncodingContext)
+//@   modifies contexts
+//@   decreases spec.depth(messages)
+
+//@ func collectEmptyBehaviorMessages(messages []*protogen.Message, contexts *[]*EmptyBehaviorContext)
+//@   modifies contexts
+//@   decreases spec.depth(messages)
+
+//@ func collectFlattenMessages(messages []*protogen.Message, contexts *[]*FlattenContext)
+//@   modifies contexts
+//@   decreases spec.depth(messages)
+
+//@ func collectInt64EncodingMessages(messages []*protogen.Message, contexts *[]*Int64EncodingContext)
+//@   modifies contexts
+//@   decreases spec.depth(messages)
+
+//@ func collectNullableMessages(messages []*protogen.Message, contexts *[]*NullableContext)
+//@   modifies contexts
+//@   decreases spec.depth(messages)
+
+//@ func collectOneofDiscriminatorMessages(messages []*protogen.Message, contexts *[]*OneofDiscriminatorContext)
+//@   modifies contexts
+//@   decreases spec.depth(messages)
+
+//@ func collectTimestampFormatMessages(messages []*protogen.Message, contexts *[]*TimestampFormatContext)
+//@   modifies contexts
+//@   decreases spec.depth(messages)
+
+//@ func collectEnumsFromMessage(msg *protogen.Message, contexts *[]*EnumEncodingContext, seen map[string]bool)
+//@   modifies contexts
+//@   decreases spec.mdepth(msg)
